@@ -245,10 +245,24 @@ def _shrink_fold_case(ctx, case, described):
 # ---------------------------------------------------------------------------------------------
 
 BASE_TREE = {"sub": {"a": None, "item": None, "keep": {}, "n.txt": None}, "d": {"x.txt": None, "e": {"f": None}},
-             "other": None}
+             "other": None, "data_1.txt": None, "data_a.txt": None}
 PATTERNS = ["sub/${*x}", "sub/*", "sub/${*x}/", "**/${*n}.txt", "${*d}/item", "d/**", "${*d}/${*x}", "sub/${*x}/*",
             "*/", "sub/[ai]*", "d/**/*.txt"]
-NAMES = ["a", "b", "item", "keep", "n.txt", "new", "e"]
+# Registrations of the SAME pattern string: different substitutions, and the same pattern + substitutions from a
+# second step.  An entry is a pattern, or [pattern, subs, step index].  Every row is compared on its own.
+SAME_PATTERN = [["data_${*i}.txt", {"i": "[0-9]"}, 0], ["data_${*i}.txt", {"i": "[a-z]"}, 0],
+                ["data_${*i}.txt", {"i": "[a-z]"}, 1], ["data_${*i}.txt", {}, 1],
+                ["sub/${*x}", {"x": "[a-m]*"}, 1], ["sub/${*x}", {"x": "n*"}, 0]]
+STEPS = ["./plan.py", "./plan2.py"]
+
+
+def _norm(entry):
+    if isinstance(entry, str):
+        return entry, {}, 0
+    pattern, subs, k = entry
+    return pattern, dict(subs), int(k)
+
+NAMES = ["a", "b", "item", "keep", "n.txt", "new", "e", "data_1.txt", "data_2.txt", "data_a.txt", "data_b.txt"]
 
 
 def _walk(base="."):
@@ -339,6 +353,11 @@ NAMED_TRACES = [
     # `**/` spans zero directories: the only changed paths lie directly in the base directory
     ("recursive-wildcard-spans-zero-directories-created", [("create", "new.txt")]),
     ("recursive-wildcard-spans-zero-directories-deleted", [("unlink", "d/x.txt")]),
+    # registrations that share the pattern string are affected differently
+    ("same-pattern-other-subs-gains-a-match", [("create", "data_b.txt")]),
+    ("same-pattern-first-subs-gains-a-match", [("create", "data_2.txt")]),
+    ("same-pattern-other-subs-loses-a-match", [("unlink", "data_a.txt"), ("create", "sub/b")]),
+    ("same-pattern-both-change", [("unlink", "data_1.txt"), ("create", "data_c.txt"), ("unlink", "sub/n.txt")]),
 ]
 
 
@@ -379,14 +398,34 @@ async def _run_trace(ops, patterns, nbuild, outside, probe=False, restart=False)
         wf = Workflow(db, dir_queue=None)
         await wf.initialize()
         olds = []
+        ids = []
         async with db:
-            wf.define_step(wf.root, "./plan.py", need=Need.PLAN)
-            plan = wf.find(Step, "./plan.py")
-            for p in patterns:
-                ng = NamedGlob(p)
+            steps = []
+            for label in STEPS:
+                # the boot step, then a second plan defined by it
+                wf.define_step(steps[0] if steps else wf.root, label, need=Need.PLAN)
+                steps.append(wf.find(Step, label))
+            for entry in patterns:
+                p, subs, k = _norm(entry)
+                ng = NamedGlob(p, subs)
                 ng.glob()
-                wf.register_nglob(plan, ng)
+                wf.register_nglob(steps[k], ng)
+                ids.append(db.execute("SELECT max(i) FROM nglob").fetchone()[0])
                 olds.append((ng, p_c17.canon_glob(ng._glob_pattern)))
+
+        async def rows():
+            """(old, candidates before, candidates after, persisted row or None, fresh scan) per registration,
+            matched by the row identifier (the order of nglob_registrations() is not relied upon)."""
+            async with db:
+                regs = {i: (ng, step.label) for i, ng, step in wf.nglob_registrations()}
+            res = []
+            for (old, std_before), i, entry in zip(olds, ids, patterns):
+                fresh = NamedGlob(old.pattern, old.subs)
+                fresh.glob()
+                recorded, label = regs.get(i, (None, None))
+                res.append((old, std_before, p_c17.canon_glob(old._glob_pattern), recorded, fresh,
+                            label == STEPS[_norm(entry)[2]]))
+            return res
         out["before"] = _walk()
         out["hyp"] = (await _check_hypotheses(wf, db, olds, out["before"])) if probe else None
         if restart:
@@ -403,12 +442,7 @@ async def _run_trace(ops, patterns, nbuild, outside, probe=False, restart=False)
             except Exception as e:  # noqa: BLE001
                 out["error"] = f"{type(e).__name__}: {e}"
                 return out
-            async with db:
-                regs = list(wf.nglob_registrations())
-            for (old, std_before), (_i, recorded, _step) in zip(olds, regs):
-                fresh = NamedGlob(old.pattern, old.subs)
-                fresh.glob()
-                out["rows"].append((old, std_before, p_c17.canon_glob(old._glob_pattern), recorded, fresh))
+            out["rows"] = await rows()
             return out
         w = _make_watcher(wf, db)
         for op in ops:
@@ -427,12 +461,7 @@ async def _run_trace(ops, patterns, nbuild, outside, probe=False, restart=False)
         except Exception as e:  # noqa: BLE001
             out["error"] = f"{type(e).__name__}: {e}"
             return out
-        async with db:
-            regs = list(wf.nglob_registrations())
-        for (old, std_before), (_i, recorded, _step) in zip(olds, regs):
-            fresh = NamedGlob(old.pattern, old.subs)
-            fresh.glob()
-            out["rows"].append((old, std_before, p_c17.canon_glob(old._glob_pattern), recorded, fresh))
+        out["rows"] = await rows()
     return out
 
 
@@ -545,11 +574,14 @@ def _check_trace(ctx, seen, name, ops, patterns, nbuild, probe=False, restart=Fa
         return
     before, after = set(out["before"]), set(out["after"])
     deleted, updated = set(out["deleted"]), set(out["updated"])
-    for old, std_before, std_after, recorded, fresh in out["rows"]:
+    for old, std_before, std_after, recorded, fresh, same_step in out["rows"]:
+        if _row_identity_broken(ctx, seen, "O6", name, old, recorded, same_step, base_w):
+            continue
         rec_files = {str(x) for x in recorded.files()}
         fresh_files = {str(x) for x in fresh.files()}
         changed = {str(x) for x in old.files()} != fresh_files
-        ctx.case(("O6", old.pattern, tuple(map(tuple, ops)), nbuild), changed or bool(rec_files))
+        ctx.case(("O6", old.pattern, repr(sorted(old.subs.items())), tuple(map(tuple, ops)), nbuild),
+                 changed or bool(rec_files))
         ctx.count("batch_rows_changed" if changed else "batch_rows_unchanged")
         if recorded.results == fresh.results:
             continue
@@ -569,8 +601,9 @@ def _check_trace(ctx, seen, name, ops, patterns, nbuild, probe=False, restart=Fa
             return evolved == {q for q in ca if rx.fullmatch(q)}
 
         causes = p_c17.explain(holds)
-        w = dict(base_w, pattern=old.pattern, recorded_after_commit=sorted(rec_files), rescanned=sorted(fresh_files))
-        detail = (f"[{name}] pattern {old.pattern!r}: after the batch deleted={sorted(deleted)!r} updated={sorted(updated)!r} "
+        w = dict(base_w, pattern=old.pattern, subs=old.subs, recorded_after_commit=sorted(rec_files),
+                 rescanned=sorted(fresh_files))
+        detail = (f"[{name}] pattern {old.pattern!r} subs {old.subs!r}: after the batch deleted={sorted(deleted)!r} updated={sorted(updated)!r} "
                   f"(built by Watcher.record_change from {out['items']!r}) process_nglob_changes recorded "
                   f"{sorted(rec_files)!r}; a fresh glob() gives {sorted(fresh_files)!r}")
         if causes:
@@ -591,6 +624,31 @@ def _check_trace(ctx, seen, name, ops, patterns, nbuild, probe=False, restart=Fa
                 ctx.add_failure("oracle", "O6:batch-update=rescan", sig, detail, witness=w)
 
 
+def _row_identity_broken(ctx, seen, clause, name, old, recorded, same_step, base_w):
+    """A registration is (step, pattern, subs): after a commit / rescan its row must still exist, belong to the
+    same step and carry the same pattern and substitutions (a row is only ever rewritten with ITS OWN evolved
+    object)."""
+    if recorded is None:
+        what = "row-vanished"
+    elif not same_step:
+        what = "row-moved-to-another-step"
+    elif recorded.pattern != old.pattern:
+        what = "pattern-replaced"
+    elif dict(recorded.subs) != dict(old.subs):
+        what = "subs-replaced"
+    else:
+        return False
+    sig = f"C17:{'batch' if clause == 'O6' else 'restart'}:registration-identity:{what}"
+    if sig not in seen:
+        seen.add(sig)
+        got = None if recorded is None else {"pattern": recorded.pattern, "subs": dict(recorded.subs),
+                                             "files": sorted(str(x) for x in recorded.files())}
+        ctx.add_failure("oracle", f"{clause}:registration-identity", sig,
+                        f"[{name}] the registration ({old.pattern!r}, {old.subs!r}) now holds {got!r}",
+                        witness=dict(base_w, pattern=old.pattern, subs=old.subs, row_now=got))
+    return True
+
+
 def _check_restart(ctx, seen, name, out, base_w):
     """O8: after startup.rescan_nglobs every persisted row equals a fresh glob() (the real function, real tree)."""
     ctx.count("restart_traces")
@@ -600,10 +658,13 @@ def _check_restart(ctx, seen, name, out, base_w):
             seen.add(sig)
             ctx.add_failure("oracle", "O8:restart-rescan", sig, f"rescan_nglobs raised {out['error']}", witness=base_w)
         return
-    for old, _std_before, _std_after, recorded, fresh in out["rows"]:
+    for old, _std_before, _std_after, recorded, fresh, same_step in out["rows"]:
+        if _row_identity_broken(ctx, seen, "O8", name, old, recorded, same_step, base_w):
+            continue
         rec_files = {str(x) for x in recorded.files()}
         fresh_files = {str(x) for x in fresh.files()}
-        ctx.case(("O8", old.pattern, tuple(map(tuple, base_w["batch_ops"]))), {str(x) for x in old.files()} != fresh_files)
+        ctx.case(("O8", old.pattern, repr(sorted(old.subs.items())), tuple(map(tuple, base_w["batch_ops"]))),
+                 {str(x) for x in old.files()} != fresh_files)
         if recorded.results == fresh.results:
             continue
         how = ("stale-match-kept" if rec_files - fresh_files else "") + ("match-missed" if fresh_files - rec_files else "")
@@ -611,9 +672,9 @@ def _check_restart(ctx, seen, name, out, base_w):
         if sig not in seen:
             seen.add(sig)
             ctx.add_failure("oracle", "O8:restart-rescan", sig,
-                            f"[{name}] pattern {old.pattern!r}: after startup.rescan_nglobs the persisted matches are "
+                            f"[{name}] pattern {old.pattern!r} subs {old.subs!r}: after startup.rescan_nglobs the persisted matches are "
                             f"{sorted(rec_files)!r}; a fresh glob() gives {sorted(fresh_files)!r}",
-                            witness=dict(base_w, pattern=old.pattern, recorded_after_rescan=sorted(rec_files),
+                            witness=dict(base_w, pattern=old.pattern, subs=old.subs, recorded_after_rescan=sorted(rec_files),
                                          rescanned=sorted(fresh_files)))
 
 
@@ -626,11 +687,14 @@ def oracle_batch(ctx, only=None):
                      only.get("during_build_items", 0), probe="hypothesis" in only, restart=bool(only.get("restart")))
         return
     for k, (name, ops) in enumerate(NAMED_TRACES):
-        _check_trace(ctx, seen, name, ops, PATTERNS, 0, probe=(k == 0))
-        _check_trace(ctx, seen, name, ops, PATTERNS, 0, restart=True)
+        _check_trace(ctx, seen, name, ops, PATTERNS + SAME_PATTERN, 0, probe=(k == 0))
+        _check_trace(ctx, seen, name, ops, PATTERNS + SAME_PATTERN, 0, restart=True)
     for k in range(ctx.scale(40, 600)):
         ops = _gen_ops(rng)
         pats = rng.sample(PATTERNS, rng.randint(2, 5))
+        if rng.random() < 0.6:
+            pats = pats + rng.sample(SAME_PATTERN, rng.randint(2, 4))
+            rng.shuffle(pats)
         nbuild = rng.randint(0, 3) if rng.random() < 0.3 else 0
         _check_trace(ctx, seen, f"random-{k}", ops, pats, nbuild, probe=(k % 10 == 3))
         if k % 3 == 0:
